@@ -113,7 +113,12 @@ func (fr *Frame) argSV(v Val, T types.Type) SV {
 		if x.kind == rootHeap && len(x.path) == 0 {
 			return SV{t: x.ref, T: T}
 		}
-		return SV{loc: x, T: T, isAddr: true}
+		sv := SV{loc: x, T: T, isAddr: true}
+		func() {
+			defer func() { recover() }()
+			sv.t = fr.run.locAsTerm(x)
+		}()
+		return sv
 	case FuncRef:
 		return SV{t: fr.run.funcRefTerm(x.Fn), T: T, fn: x.Fn}
 	case *Closure:
@@ -188,6 +193,21 @@ func (fr *Frame) callContract(st *State, sig *types.Signature, fn *ssa.Function,
 		env.vars[n] = sv
 		env.vars[fmt.Sprintf("arg%d", i)] = sv
 	}
+	// definitional contracts (`ensures result == E` only) are applied as definitions: no havoc, no assumption
+	if len(fc.Fresh) == 0 {
+		var svs []SV
+		for i := range names {
+			svs = append(svs, env.vars[names[i]])
+		}
+		if sv, ok := r.applyDefinitional(env, fc, sig, svs); ok && sv.t.S != "nil" {
+			want := r.eng.u.sortOf(sig.Results().At(0).Type())
+			if sv.t.Sort == want {
+				return r.def("d_"+mangle(shortFuncName(name)), sv.t)
+			}
+		} else if ok {
+			return r.eng.u.zeroOf(sig.Results().At(0).Type())
+		}
+	}
 	r.callN++
 	cs := r.callN
 	for _, cl := range fc.Requires {
@@ -221,7 +241,13 @@ func (fr *Frame) callContract(st *State, sig *types.Signature, fn *ssa.Function,
 	}
 	for _, f := range fc.Fresh {
 		if sv, ok := env.vars[f]; ok {
-			r.assume(st, or(eq(sv.t, intLit(0)), app("Bool", ">", sv.t, wm0)))
+			ref := sv.t
+			if ref.Sort == "Slice" {
+				ref = app("Int", "sl_arr", sv.t)
+			}
+			if ref.Sort == "Int" {
+				r.assume(st, or(eq(ref, intLit(0)), app("Bool", ">", ref, wm0)))
+			}
 		}
 	}
 	env.cur = st
@@ -276,9 +302,43 @@ func (fr *Frame) invoke(st *State, c *ssa.CallCommon, recv Val, args []Val, pos 
 		r.natives[key] = true
 		return nat(fr, st, append([]Val{recv}, args...), pos)
 	}
+	if v, ok := fr.objMetaInvoke(st, c, recv, args, pos); ok {
+		return v
+	}
 	if isClockMethod(c.Method) {
 		r.natives["clock: "+key] = true
 		return r.clockRead(st)
+	}
+	if fc := r.eng.contracts[key]; fc != nil && fc.Devirt != "" {
+		// devirtualised interface call: the dynamic type must be the production implementation, whose own
+		// (verified) contract is then used
+		pkgName, tName := fc.Devirt, ""
+		if i := strings.LastIndex(fc.Devirt, "."); i >= 0 {
+			pkgName, tName = fc.Devirt[:i], fc.Devirt[i+1:]
+		}
+		tp := r.eng.importedPkg(r.eng.typesPkgs[fc.PkgPath], pkgName)
+		if tp == nil {
+			unsupported("devirtualize %s: unknown package", fc.Devirt)
+		}
+		tn, ok := tp.Scope().Lookup(tName).(*types.TypeName)
+		if !ok {
+			unsupported("devirtualize %s: unknown type", fc.Devirt)
+		}
+		PT := types.NewPointer(tn.Type())
+		fn := r.eng.findFunc(tp.Path(), tName+"."+c.Method.Name())
+		if fn == nil {
+			unsupported("devirtualize %s: no method %s", fc.Devirt, c.Method.Name())
+		}
+		rv := fr.toTerm(recv)
+		r.callN++
+		r.oblige(st, "requires", fmt.Sprintf("%s#devirtualize:%s.%s@%d", r.funcLabel(), tName, c.Method.Name(), r.callN), fr.safetyTags(),
+			eq(app("Int", "if_tag", rv), r.eng.u.typeID(PT)), "interface value holds the production implementation *"+fc.Devirt, true, pos)
+		var recvArg Val = app("Int", "if_val", rv)
+		if _, isPtr := fn.Signature.Recv().Type().(*types.Pointer); !isPtr {
+			unsupported("devirtualize %s: value receiver", fc.Devirt)
+		}
+		r.externs["devirtualized: "+key+" -> "+fn.String()] = true
+		return fr.callFunc(st, fn, append([]Val{recvArg}, args...), nil, pos)
 	}
 	if fc := r.eng.contracts[key]; fc != nil {
 		r.externs[key] = true
